@@ -103,13 +103,14 @@ def parse_store(p):
 
 
 class Line:
-    __slots__ = ("raw", "frames", "pushes", "calls", "cache", "store", "sess", "plain", "me", "meframes", "mesess")
+    __slots__ = ("raw", "frames", "pushes", "calls", "cache", "store", "sess", "plain", "me", "meframes", "mesess", "fnd", "fndsess")
 
     def __init__(self, raw):
         self.raw = raw
         self.frames, self.pushes, self.calls, self.cache, self.store, self.sess = [], [], [], {}, {}, {}
         # the users' `me` topics are kept apart: caches under the user's name, frames which name the topic `me`, attachments
         self.me, self.meframes, self.mesess = {}, [], {}
+        self.fnd, self.fndsess = {}, {}       # … and their search topics (`fnd:` + the user's name)
         self.plain = None
         if " | " not in raw and not raw.startswith("calls="):
             self.plain = raw
@@ -121,6 +122,9 @@ class Line:
             elif p.startswith("cache ") and re.match(r"^cache U\d+ ", p):
                 c = parse_me(p)
                 self.me[c["name"]] = c
+            elif p.startswith("cache fnd:"):
+                c = parse_cache(p)
+                self.fnd[c["name"]] = c
             elif p.startswith("cache "):
                 c = parse_cache(p)
                 self.cache[c["name"]] = c
@@ -132,8 +136,9 @@ class Line:
             elif re.match(r"^S\d+\{", p):
                 sid, rest = p.split("{", 1)
                 names = [x for x in rest.rstrip("}").split(",") if x]
-                self.sess[sid] = set(x for x in names if not re.fullmatch(r"U\d+", x))
+                self.sess[sid] = set(x for x in names if not re.fullmatch(r"U\d+", x) and not x.startswith("fnd:"))
                 self.mesess[sid] = set(x for x in names if re.fullmatch(r"U\d+", x))
+                self.fndsess[sid] = set(x for x in names if x.startswith("fnd:"))
             elif "<-" in p:
                 sid, f = p.split("<-", 1)
                 fw = f.split(" ")
@@ -159,7 +164,9 @@ class Case:
             if w[0] == "reset" and len(w) > 1:
                 self.maxsubs = int(w[1])
             if w[0] == "user":
-                self.users[w[1]] = dict(auth=w[2], anon=w[3])
+                kvu = _kv(w[4:])
+                self.users[w[1]] = dict(auth=w[2], anon=w[3], tags=[x for x in kvu.get("tags", "").split(",") if x],
+                                        susp=kvu.get("state") == "susp", missing=kvu.get("state") == "missing")
             elif w[0] == "sess":
                 self.sess[w[1]] = dict(user=w[2], lvl=w[3], bg="bg" in w[4:])
         # Peer-to-peer topics: a participant addresses the topic by the other participant's name, the digests show it under the
@@ -174,6 +181,8 @@ class Case:
             # requests to the own `me` topic and the idle timer of one are kept apart from those to group and p2p topics
             if w[0] in self.P2P_OPS and len(w) > 2 and w[2] == "me":
                 w[0] = "me" + w[0]
+            if w[0] in self.P2P_OPS and len(w) > 2 and w[2] == "fnd":
+                w[0] = "fnd" + w[0]             # … and those to the own search topic
             if w[0] == "unload" and len(w) > 1 and re.fullmatch(r"U\d+", w[1]):
                 w[0] = "meunload"
             if w[0] in self.P2P_OPS and len(w) > 2 and w[2].startswith("chn:"):
@@ -1095,7 +1104,7 @@ def mon_C10(case):
         if ln.plain is not None:
             continue
         pre = prev_state(case, i)
-        for t, c in list(ln.cache.items()) + list(ln.me.items()):
+        for t, c in list(ln.cache.items()) + list(ln.me.items()) + list(ln.fnd.items()):
             fgcount = {}
             for sid, uid in c["sess"].items():
                 if not bg.get(sid, False):
@@ -1105,7 +1114,7 @@ def mon_C10(case):
                     out.append((i, f"C10 online count of {u} on {t} is negative ({p['o']})"))
                 want_o = fgcount.get(u, 0)
                 if p["o"] != want_o:
-                    pc = (pre.cache.get(t) or pre.me.get(t) or {}) if pre else {}
+                    pc = (pre.cache.get(t) or pre.me.get(t) or pre.fnd.get(t) or {}) if pre else {}
                     pp = pc.get("users", {}).get(u)
                     pre_sess = pc.get("sess", {})
                     same = pp is not None and pp["o"] == p["o"] and pre_sess == c["sess"] and w[0] != "fg"
@@ -1214,8 +1223,8 @@ def mon_C10_me(case):
             u = case.sess.get(sid, {}).get("user")
             k = frame_kv(f)
             what, src = k.get("what", ""), k.get("src", "-")
-            if src == "-":
-                continue            # a change of the user's own subscription to `me`, shown to the user's other sessions there
+            if src == "-" or src == "fnd" or src.startswith("fnd:"):
+                continue            # a change of the user's own subscription to `me` (or `fnd`), shown to the user's other sessions there
             att = any(l is not None and sid in l.me.get(u, {}).get("sess", {}) for l in (ln, pre))
             if not att:
                 out.append((i, f"C10 [me-unattached] `{fw[0]} {what}` about {src} delivered on `me` to {sid} which is not attached to `me`"))
@@ -1351,6 +1360,7 @@ def replied(ln, sid):
 
 
 ME_REQS = ("mesub", "meleave", "mepub", "meget", "mesetsub")
+FND_REQS = ("fndsub", "fndleave", "fndpub", "fndget", "fndsetdesc", "fndsetsub")
 
 
 def silent_why(case, i, w, ln):
@@ -1377,6 +1387,9 @@ def mon_C13(case):
             continue
         if ln.plain is None and w[0] in ME_REQS and not any(s == w[1] and f.split(" ")[0] in ("ctrl", "meta") for s, f in ln.meframes):
             out.append((i, f"C13 request `{w[0][2:]}` on `me` from {w[1]} was not answered"))
+            continue
+        if ln.plain is None and w[0] in FND_REQS and not any(s == w[1] and f.split(" ")[0] in ("ctrl", "meta") for s, f in ln.frames):
+            out.append((i, f"C13 request `{w[0][3:]}` on `fnd` from {w[1]} was not answered"))
             continue
         if ln.plain is not None or w[0] not in REQS:
             continue
@@ -1422,6 +1435,16 @@ def mon_C14(case):
                     out.append((i, f"C14 after `{w[0]}` `me` of {t} lists session {sid} but the session does not list it"))
                 if u != t:
                     out.append((i, f"C14 after `{w[0]}` `me` of {t} has session {sid} attached for {u}"))
+        for sid, tops in ln.fndsess.items():
+            for t in tops:
+                if t not in ln.fnd or sid not in ln.fnd[t]["sess"]:
+                    out.append((i, f"C14 after `{w[0]}` session {sid} lists {t} but that topic does not list the session"))
+        for t, c in ln.fnd.items():
+            for sid, u in c["sess"].items():
+                if t not in ln.fndsess.get(sid, set()):
+                    out.append((i, f"C14 after `{w[0]}` {t} lists session {sid} but the session does not list it"))
+                if "fnd:" + u != t:
+                    out.append((i, f"C14 after `{w[0]}` {t} has session {sid} attached for {u}"))
         if w[0] in ME_REQS:
             nrep = len([f for sid, f in ln.meframes if sid == w[1] and f.startswith("ctrl ") and not f.startswith("ctrl 205 ")])
             if nrep > 1:
@@ -1467,14 +1490,14 @@ def mon_C11(case):
         w = o.split(" ")
         if ln.plain is not None or len(w) < 2 or w[1] not in case.logged_out(i):
             continue
-        if w[0] not in REQS + ME_REQS + ("note", "menote"):
+        if w[0] not in REQS + ME_REQS + FND_REQS + ("note", "menote", "fndnote"):
             continue
         pre = prev_state(case, i)
         mine = [f for sid, f in ln.frames + ln.meframes if sid == w[1]]
         if " as=" in o:
             want = ["ctrl 403 -"]
             ok = mine == want
-        elif w[0] in ("note", "menote"):
+        elif w[0] in ("note", "menote", "fndnote"):
             want = []
             ok = mine == want
         else:
@@ -1492,10 +1515,111 @@ def mon_C11(case):
 
 # ------------------------------------------------------------------------------------------------ C19 (tags of group topics)
 
+MASKED_NS = ("rest",)
+
+
+def parse_query(q):
+    """the documented reading of a search string made of plain tags: a comma is OR, a space is AND, OR binds tighter - a term next
+    to a comma is optional, any other term is required. None for strings this reader does not take on (quotes, stray commas)."""
+    if q is None or q == "" or '"' in q:
+        return None
+    req, opt = [], []
+    for word in q.replace("+", " ").split(" "):
+        if word == "":
+            continue
+        parts = word.split(",")
+        if any(p == "" for p in parts):
+            return None
+        parts = [p.lower() for p in parts]
+        if any(not re.fullmatch(r"[a-z0-9_:]{2,96}", p) or not p[0].isalnum() for p in parts):
+            return None
+        if len(parts) == 1:
+            req.append(parts[0])
+        else:
+            opt.extend(parts)
+    # consecutive single words: a word followed by a word which holds commas is still required (only adjacency to a comma counts)
+    return req, opt
+
+
+def mon_C19_fnd(case):
+    """searching on `fnd`: the results are exactly the accounts and topics whose tags satisfy the query - every required term, and at
+    least one term of the query - each with the tags that matched; never the searcher; nothing suspended or deleted unless a root
+    session asks; a tag of a masked namespace is usable only by a searcher who carries it"""
+    out = []
+    import json as _json
+    susp = {u: v.get("susp", False) for u, v in case.users.items()}
+    for i, (o, ln) in enumerate(zip(case.ops, case.lines)):
+        w = o.split(" ")
+        if w[0] == "userstate" and len(w) > 2:
+            susp[w[1]] = w[2] == "susp"
+        if ln.plain is not None or len(w) < 3:
+            continue
+        sid = w[1]
+        u = case.sess.get(sid, {}).get("user")
+        mine = [f for s2, f in ln.frames if s2 == sid]
+        pre = prev_state(case, i)
+        c = pre.fnd.get("fnd:" + str(u)) if pre is not None else None
+        if w[0] == "fndget" and len(w) > 3 and w[3] == "sub" and c is not None and sid in c["sess"] and mine:
+            # the query the topic holds for this session (the digest shows a space as `_`), or else the stored one of the user
+            q = None
+            if (c["pub"] or "").startswith("{"):
+                try:
+                    q = _json.loads(c["pub"]).get(sid)
+                except ValueError:
+                    continue
+            if q is None:
+                pv = c["users"].get(u, {}).get("priv", "-")
+                q = None if pv in ("-", "␡") else pv
+            if q is not None:
+                q = q.replace("_", " ")
+            pq = parse_query(q)
+            if pq is None:
+                continue
+            req, opt = pq
+            allq = set(req) | set(opt)
+            lvl = case.sess[sid]["lvl"]
+            masked = [t for t in allq if ":" in t and t.split(":")[0] in MASKED_NS]
+            if masked and any(t not in case.users[u]["tags"] for t in masked) and not mine[0].startswith("ctrl 4"):
+                out.append((i, f"C19 [masked] {u} searched by {masked}, tags of a masked namespace which {u} does not carry, and was answered `{mine[0][:60]}`"))
+                continue
+            if not mine[0].startswith(("meta fnd sub[", "ctrl 204 ")):
+                continue
+            shown = {}
+            if mine[0].startswith("meta fnd sub["):
+                for e in mine[0][len("meta fnd sub["):-1].split(" "):
+                    name = ":".join(e.split(":")[:2]) if e.startswith("chn:") else e.split(":")[0]
+                    m = re.search(r"priv=\[(.*?)\]", e)
+                    shown[name] = [x.strip('"') for x in m.group(1).split(",")] if m and m.group(1) else []
+            # what ought to be shown
+            cand = {}
+            for x, v in case.users.items():
+                if x != u and not v.get("missing"):
+                    cand[x] = (v["tags"], susp.get(x, False))
+            for t, row in ln.store.items():
+                if t.startswith("P:"):
+                    continue
+                tags = [x for x in (row["tags"] or "").strip("[]").split(",") if x]
+                cand[("chn:" + t) if row["chan"] else t] = (tags, row["state"] != 0)
+            for name, (tags, hidden) in cand.items():
+                hit = [t for t in tags if t in allq]
+                ok = bool(hit) and all(r in tags for r in req) and not (hidden and lvl != "root")
+                if ok and name not in shown:
+                    out.append((i, f"C19 [missed] the search `{q}` of {u} does not show {name}, whose tags {tags} satisfy it"))
+                elif not ok and name in shown:
+                    why = "is suspended or deleted" if (hidden and lvl != "root") else f"has tags {tags}"
+                    out.append((i, f"C19 [shown] the search `{q}` of {u} ({lvl}) shows {name}, which {why}"))
+                elif ok and shown[name] != hit:
+                    out.append((i, f"C19 [matched] the search `{q}` shows {name} with matched tags {shown[name]} instead of {hit}"))
+            for name in shown:
+                if name not in cand:
+                    out.append((i, f"C19 [shown] the search `{q}` of {u} shows {name}" + (", the searcher" if name == u else ", which does not exist")))
+    return out
+
+
 def mon_C19(case):
     """the tags stored with a topic: normalised (lower case, sorted, no duplicates, 2..96 characters, first character a letter or a
     digit), changed only by a {set tags} of the owner, and never gaining or losing a tag of the immutable namespace `basic:`"""
-    out = []
+    out = mon_C19_fnd(case)
     for i, (o, ln) in enumerate(zip(case.ops, case.lines)):
         if ln.plain is not None:
             continue
